@@ -2,6 +2,7 @@ package main
 
 import (
 	"fmt"
+	"go/constant"
 	"go/types"
 	"strings"
 )
@@ -104,4 +105,81 @@ func c13R7(h H) {
 		}
 	}
 	r.Check(bad == "", "R7", "fastcgi.fastcgiParse/independent-rules", fn.Pos(), "each fastcgi rule carries the settings of its own block only", bad)
+}
+
+// c13R8: a parameter that fits a record reaches the responder whole.  writePairs cuts a value only when the encoded
+// pair (the two length prefixes — one byte up to 127, four above — the name and the value) is longer than a record may
+// be; it is evaluated (E10; the record writer is an oracle that records what it is handed) on one pair with a
+// ten-byte name and values around that limit.
+func c13R8(h H) {
+	r := h.r
+	r.Rule("R8", "parameters that fit are sent whole, as a table (E10) of FCGIClient.writePairs: for a ten-byte name and values whose encoded pair is 20, maxWrite-3 … maxWrite bytes long the value handed to the record writer is the value given, byte for byte (a value beyond the limit may be cut, never one within it)", 1)
+	fn := h.fn("R8", fcPkg, "(*FCGIClient).writePairs")
+	if fn == nil {
+		return
+	}
+	maxWrite := int64(0)
+	if pk := h.p.Pkg(fcPkg); pk != nil {
+		if c, ok := pk.Pkg.Scope().Lookup("maxWrite").(*types.Const); ok {
+			maxWrite, _ = constant.Int64Val(c.Val())
+		}
+	}
+	if maxWrite < 1000 {
+		r.Unresolve("R8", "fastcgi.maxWrite: constant not found")
+		return
+	}
+	mapT, _ := underlying(fn.Params[2].Type()).(*types.Map)
+	if mapT == nil {
+		r.Unresolve("R8", "writePairs: third parameter is not a map")
+		return
+	}
+	name := "SCRIPT_FIL"
+	bad, n := "", 0
+	for _, encoded := range []int64{20, maxWrite - 3, maxWrite - 2, maxWrite - 1, maxWrite} {
+		vlen := encoded - int64(len(name)) - 1 - 1
+		if vlen > 127 {
+			vlen = encoded - int64(len(name)) - 1 - 4
+		}
+		value := strings.Repeat("v", int(vlen))
+		var strs []string
+		env := &absEnv{globals: map[string]*aobj{}, noFork: true, maxSteps: 400000}
+		writer := &aobj{name: "record writer", typ: types.Typ[types.Int], f: map[string]aval{}}
+		env.ext = func(callee string, args []aval) (aval, bool) {
+			switch {
+			case strings.HasSuffix(callee, "fastcgi.newWriter"):
+				return aptr{writer, ""}, true
+			case strings.HasSuffix(callee, "bufWriter).WriteString"), strings.HasSuffix(callee, "bufio.Writer).WriteString"):
+				if s, ok := args[1].(astr); ok {
+					strs = append(strs, string(s))
+					return atuple{aint(int64(len(s))), anil{}}, true
+				}
+				return aunk{"WriteString of " + describeAval(args[1])}, true
+			case strings.HasSuffix(callee, "bufWriter).Write"), strings.HasSuffix(callee, "bufio.Writer).Write"):
+				if sl, ok := args[1].(avals); ok {
+					return atuple{aint(int64(len(sl.cells))), anil{}}, true
+				}
+			case strings.HasSuffix(callee, "bufWriter).Flush"), strings.HasSuffix(callee, "bufio.Writer).Flush"), strings.HasSuffix(callee, "bufWriter).Close"):
+				return anil{}, true
+			}
+			return nil, false
+		}
+		pairs := amap{&amapData{vals: map[string]aval{"s:" + name: astr(value)}, keys: map[string]aval{"s:" + name: astr(name)}, typ: mapT}}
+		client := &aobj{name: "client", typ: derefType(fn.Params[0].Type()), f: map[string]aval{}}
+		client.in = func(o *aobj, path string, t types.Type) aval { return aunk{"client field " + path} }
+		_, und := env.run(fn, []aval{aptr{client, ""}, aint(4), pairs})
+		n++
+		desc := fmt.Sprintf("name of %d bytes, value of %d bytes (encoded pair: %d bytes, a record holds %d)", len(name), vlen, encoded, maxWrite)
+		switch {
+		case und != "":
+			bad = desc + ": undecided — " + und
+		case len(strs) != 2 || strs[0] != name:
+			bad = fmt.Sprintf("%s: the record writer is handed %d strings, the first of %d bytes; specification: the name, then the value", desc, len(strs), len(append(strs, "")[0]))
+		case strs[1] != value:
+			bad = fmt.Sprintf("%s: the value reaches the record writer with %d bytes — cut although the pair fits a record", desc, len(strs[1]))
+		}
+		if bad != "" {
+			break
+		}
+	}
+	r.Check(bad == "", "R8", "fastcgi.(*FCGIClient).writePairs/fits-whole-table", fn.Pos(), "a parameter whose encoding fits a record is sent whole", fmt.Sprintf("%d pairs evaluated", n), bad)
 }
